@@ -35,6 +35,8 @@ CLAIMS = {
          "io.Writer law n < len(p) ==> err != nil assumed of the destination"),
  "C14": ("proof: zero-annotation safety sweep (index, slice bounds, nil dereference, type assertion, division, signed overflow, explicit panic unreachable) plus a decreasing variant for every annotated loop, for every function under contract in age, internal/stream and internal/format; scrypt work bounded by the C10 call-site obligation.",
          "library internals assumed panic-free and terminating; < 2^88 chunks per stream; functions not yet under contract (armor, bech32, parse.go, agessh, plugin, cmd) are not covered yet"),
+ "C15": ("proof: errorf, errorWithHint, exit and age-keygen's errorf never return (so every failure path ends the process with a non-zero status); decrypt and encrypt return normally only if age.Decrypt/age.Encrypt, the output-opening write, io.Copy, the stream Close and (with -a) the armor Close each ran exactly once and returned a nil error (per-call-site ghost counters and last-error ghosts, also inside deferred closures); decrypt touches the output at least once and only after age.Decrypt succeeded, so a header-level refusal neither creates nor modifies the -o file; lazyOpener creates the file on the first Write only, exactly once, never reopens it, keeps the creation error sticky, and Close reports the file's Close error; newLazyOpener opens nothing; main refuses the output unless its canonical absolute path differs from that of every -i file, every -R file and the input file (loop invariants with an existential witness in inUseFiles); the mode wrappers pass in/out/armor through unchanged and call decrypt/encrypt exactly once; age-keygen opens its output with exactly O_WRONLY|O_CREATE|O_EXCL and mode 0600, closes it with the error checked, and generate/convert return only if every key/recipient line was written with a nil error.",
+         "exit status is modelled as 'returns normally from main' (0) versus 'ends in a non-returning call' (non-zero); the prefix-of-plaintext half is carried by the stream Reader contracts of C02/C12 (plaintext released only after authentication), not re-proved here; filepath.Abs assumed deterministic (canonical path as an uninterpreted function); flag package, os.Create/OpenFile, io.Copy and fmt.Fprintf contracts assumed; run-time safety of main is not checked (nosafety)"),
  "C16": ("proof for every message the plugin may send (one symbolic loop iteration against ReadStanza's contract stands for any message at any point): phase 1 of both state machines writes exactly add-recipient|add-identity <encoding>, grease-<hex>, wrap-file-key with the file key (resp. one recipient-stanza 0 <type> <args> <body> per stanza, in order), extension-labels, done - each exactly once (call-site execution counters); 'ok' is written for a recipient-stanza only after index 0 was validated; a second labels or file-key message is an error (counter invariant; empty file keys are rejected); 'error' is acknowledged then aborts; unknown commands get exactly one 'unsupported' and change nothing; zero stanzas / no file key are errors, the latter wrapping ErrIncorrectIdentity through the %w wrappers; ClientUI.handle answers every known command exactly once with the prescribed reply for every combination of nil and failing callbacks; every loop consumes input (termination relative to the plugin's stream).",
          "the plugin process is a ghost stanza stream; process creation and pipes assumed (openClientConnection's body is mostly OS calls); UI callbacks assumed not to touch protocol state"),
  "C17": ("proof: validPluginName iff every rune is in the 66-character allow-list; ParseRecipient/ParseIdentity/EncodeIdentity/EncodeRecipient and NewRecipient/NewIdentity/NewIdentityWithoutData return a name only if valid and start no process; execabs.Command is called (at most once per wrap/unwrap) with exactly 'age-plugin-'+name and only if the name has no path separator (when the test-only path override is empty); cmd/age constructs plugins only from the -r/-i/-j argument strings; native Unwrap/Parse functions do not reach execabs.Command.",
@@ -48,8 +50,6 @@ CLAIMS = {
 }
 
 NOT_YET = {
-
- "C15": "cmd/age and cmd/age-keygen contracts not built yet",
 }
 
 def main():
